@@ -214,6 +214,64 @@ theorem final_result_holds_loaded (r : Running P) (post : List (Step P)) (k : St
     rw [h2]
     simp [Ne.symm hk]
 
+/-- **History theorem: every execution of the load model yields the file's containers**, however
+often it has been executed before and whatever happened in between (writes by models, the
+emptying of the containers before a new readout, earlier loads of the same or of another file):
+the state right after the `i`-th step, if that step is a load, is exactly the file's. -/
+theorem every_load_yields_file (ss : List (Step P)) :
+    ∀ (r0 : Running P) (tr : List (Running P)), runTrace runStep r0 ss = .ok tr →
+      ∀ (i : Nat) (ty : String) (shape : Nat × Nat) (file : Store P),
+        ss[i]? = some (Step.load ty shape file) → ∃ r, tr[i]? = some r ∧ r.store = file := by
+  induction ss with
+  | nil => intro r0 tr _ i ty shape file h; simp at h
+  | cons s ss ih =>
+    intro r0 tr htr i ty shape file hi
+    simp only [runTrace] at htr
+    cases hs : runStep r0 s with
+    | error e => rw [hs] at htr; cases htr
+    | ok r1 =>
+      rw [hs] at htr
+      simp only at htr
+      cases ht : runTrace runStep r1 ss with
+      | error e => rw [ht] at htr; cases htr
+      | ok tr1 =>
+        rw [ht] at htr
+        simp only [Except.ok.injEq] at htr
+        subst htr
+        cases i with
+        | zero =>
+          simp only [List.getElem?_cons_zero, Option.some.injEq] at hi
+          subst hi
+          refine ⟨r1, by simp, ?_⟩
+          simp only [runStep] at hs
+          split at hs
+          · cases hs
+          · split at hs
+            · cases hs
+            · simp only [Except.ok.injEq] at hs; subst hs; rfl
+        | succ i =>
+          simp only [List.getElem?_cons_succ] at hi
+          obtain ⟨r, hr, hf⟩ := ih r1 tr1 ht i ty shape file hi
+          exact ⟨r, by simpa using hr, hf⟩
+
+-- non-vacuity: two readouts; the containers are emptied before the second one and the load model runs
+-- again on the same file: both executions give the file's photon
+example : (match runTrace runStep (⟨"CCD", (3, 4), fun _ => none⟩ : Running Nat)
+      [.load "CCD" (3, 4) (fun k => if k = "photon" then some 7 else none), .write "pixel" (some 1),
+       .write "photon" none,
+       .load "CCD" (3, 4) (fun k => if k = "photon" then some 7 else none)] with
+    | .ok tr => tr.map (·.store "photon")
+    | .error _ => []) = [some 7, some 7, none, some 7] := by decide
+
+-- counter-witness for the cached-and-shared variant (seeded defect C18-2): the emptying before the
+-- second readout empties the cached object, and the second load hands it out again
+example : (match runStepsShared (⟨⟨"CCD", (3, 4), fun _ => none⟩, none, false⟩ : Shared Nat)
+      [.load "CCD" (3, 4) (fun k => if k = "photon" then some 7 else none),
+       .write "photon" none,
+       .load "CCD" (3, 4) (fun k => if k = "photon" then some 7 else none)] with
+    | .ok w => w.run.store "photon"
+    | .error _ => some 0) = none := by decide
+
 /-- a stored detector of another type or another shape is refused -/
 theorem load_mismatch_rejected (r : Running P) (ty : String) (shape : Nat × Nat) (file : Store P) :
     (ty ≠ r.ty → runStep r (.load ty shape file) = .error "TypeError") ∧
